@@ -36,6 +36,23 @@ def kit():
             return {'cells': {c: {v: tok[c][v] for v in self.parameters['vars']} for c in states['cells']},
                     'ticks': 1}
 
+    class Adder(Process):
+        """wired plainly to the pool: adds a new child (with a state for its re-mapped variables) at a given step"""
+        defaults = {'at': 1, 'state': {}, 'key': 'n'}
+
+        def __init__(self, parameters=None):
+            super().__init__(parameters)
+            self.k = 0
+
+        def ports_schema(self):
+            return {'pool': {'*': {}}}
+
+        def next_update(self, ts, states):
+            self.k += 1
+            if self.k == self.parameters['at'] + 1:
+                return {'pool': {'_add': [{'key': self.parameters['key'], 'state': self.parameters['state']}]}}
+            return {}
+
     class Cell(Process):
         defaults = {'vars': ['x']}
 
@@ -44,7 +61,7 @@ def kit():
 
         def next_update(self, ts, states):
             return {}
-    _KIT = dict(Bump=Bump, Cell=Cell)
+    _KIT = dict(Bump=Bump, Cell=Cell, Adder=Adder)
     return _KIT
 
 
@@ -55,7 +72,10 @@ def gen_case(rng):
     kids = rng.sample(['a', 'b', 'c'], rng.randint(1, 3))
     return {'kind': 'globtopo', 'vars': vars_, 'vmap': vmap, 'pool': pool, 'kids': kids,
             'form': rng.choice(['inside', 'beside']), 'deep': rng.random() < 0.4,
-            'steps': rng.randint(2, 4), 'init': {k: {v: rng.randint(0, 9) for v in vars_} for k in kids}}
+            'steps': rng.randint(2, 4), 'init': {k: {v: rng.randint(0, 9) for v in vars_} for k in kids},
+            # another process adds a child `n` to the pool during the run: it must get the sub-schema THROUGH the
+            # sub-topology (its variables at the re-mapped places, the given state applied there)
+            'add_at': rng.choice([None, 0, 1]), 'add_state': {v: rng.randint(10, 19) for v in vars_}}
 
 
 def nest(d, path, value):
@@ -113,9 +133,21 @@ def run_impl(c):
         nest(topology, abs_pool + [k, 'cell'], {v: tuple(p) for v, p in c['vmap'].items()})
         for v in c['vars']:
             nest(init, abs_pool + [k] + c['vmap'][v], c['init'][k][v])
+    if c.get('add_at') is not None:
+        st = {}
+        for v in c['vars']:
+            nest(st, c['vmap'][v], c['add_state'][v])
+        processes['adder'] = K['Adder']({'at': c['add_at'], 'state': st, 'key': 'n'})
+        topology['adder'] = {'pool': tuple(abs_pool)}
+        tokens['n'] = {}
+        for v in c['vars']:
+            tokens['n'][v] = n
+            n *= 10
+        bump.parameters['tokens'] = tokens
     ref_topology = copy.deepcopy(topology)
     out = {'steps': [], 'tokens': tokens, 'abs_pool': abs_pool}
-    with contextlib.redirect_stdout(io.StringIO()):
+    try:
+      with contextlib.redirect_stdout(io.StringIO()):
         eng = Engine(processes=processes, topology=topology, initial_state=init, display_info=False)
         for step in range(c['steps']):
             before = flat(strip(eng.state.get_value()))
@@ -126,20 +158,30 @@ def run_impl(c):
                                  'seen': bump.seen[step]['cells'] if step < len(bump.seen) else None,
                                  'topology_kept': eng.topology == ref_topology and topology == ref_topology})
         eng.end()
+    except Exception as e:
+        out['raised'] = '%s: %s' % (type(e).__name__, str(e)[:200])
     return out
 
 
 def oracle(c, ob, rng):
+    if ob.get('raised'):
+        return [('the engine raised after %d step(s): %s' % (len(ob['steps']), ob['raised']), 'engine-raised')]
     pool = ob['abs_pool']
     for i, st in enumerate(ob['steps']):
         b, a = st['before'], st['after']
         if not st['topology_kept']:
             return [('step %d: the topology handed to the engine was modified' % i, 'topology-mutated')]
-        if st['seen'] is None or set(st['seen']) != set(c['kids']):
+        kids = list(c['kids'])
+        if c.get('add_at') is not None and i > c['add_at']:
+            kids.append('n')
+        if st['seen'] is None or set(st['seen']) != set(kids):
             return [('step %d: the glob port shows the children %r, the pool holds %r'
-                     % (i, sorted(st['seen'] or {}), sorted(c['kids'])), 'glob-children')]
+                     % (i, sorted(st['seen'] or {}), sorted(kids)), 'glob-children')]
         want = dict(b)
-        for k in c['kids']:
+        if c.get('add_at') is not None and i == c['add_at']:
+            for v in c['vars']:
+                want['/'.join(pool + ['n'] + c['vmap'][v])] = c['add_state'][v]
+        for k in kids:
             for v in c['vars']:
                 node = '/'.join(pool + [k] + c['vmap'][v])
                 if st['seen'][k].get(v) != b.get(node):
